@@ -119,6 +119,8 @@ TOOL_ARGS = {"ovniemu": ["-l"], "ovnidump": [], "ovnitop": [], "ovnisort": []}
 # the emulator again with its debug output switched on (the messages format event arguments), for the operators that
 # change what an event carries
 DEBUG_OPS = {"nopayload", "size", "tojumbo", "phantom-payload", "flags", "jdata", "jnoterm"}
+# the other modes of the tools: hexadecimal dump, check-only and small-window sort, every model forced on with the breakdown view
+EXTRA_RUNS = [("ovnidump", ["-x"]), ("ovnisort", ["-c"]), ("ovnisort", ["-n", "4"]), ("ovniemu", ["-a", "-b"])]
 
 
 def run_c19(prop, tier):
@@ -204,6 +206,7 @@ def run_c19(prop, tier):
             runs = [(t, TOOL_ARGS[t] if not (t == "ovniemu" and name == "bd2") else ["-l", "-b"]) for t in tnames]
             if label.split(":")[0] in DEBUG_OPS:
                 runs.append(("ovniemu", ["-l", "-d"]))
+            runs += EXTRA_RUNS
             for (t, targs) in runs:
                 td = os.path.join(base, "w%d" % os.getpid())
                 write_files(td, files)      # ovnisort rewrites streams: fresh copy per tool
@@ -222,7 +225,7 @@ def run_c19(prop, tier):
                     for l in err.split("\n"):
                         if "ERROR: AddressSanitizer" in l or "runtime error" in l or l.strip().startswith("#0") or l.strip().startswith("#1 "):
                             san += l.strip()[:160] + " | "
-                res.append((t if targs == TOOL_ARGS[t] else t + " " + " ".join(targs[1:]), rc, san[:500], err[-200:] if rc not in (0, 1) else ""))
+                res.append((t if targs == TOOL_ARGS[t] else (t + " " + " ".join(a for a in targs if a != "-l")).strip(), rc, san[:500], err[-200:] if rc not in (0, 1) else "", targs))
             return res
         kinds = {}
         outcomes = set()
@@ -234,7 +237,7 @@ def run_c19(prop, tier):
                 nskip += 1
                 continue
             kinds[k] = kinds.get(k, 0) + 1
-            for (t, rc, san, tail) in res:
+            for (t, rc, san, tail, targs) in res:
                 ctx.add(evaluations=1)
                 outcomes.add((t, rc if rc in (0, 1) else "bad"))
                 if rc in (0, 1) and not san:
@@ -244,7 +247,7 @@ def run_c19(prop, tier):
                 classes.setdefault(ck, []).append(label)
                 what = "timeout (hang)" if rc == "timeout" else ("sanitizer report" if san else "died with status %r" % rc)
                 ctx.violation("%s on base %s corruption %s: %s %s" % (t, name, label, what, (san or tail)[:300]),
-                              {"engine": "E6 tools (ASan+UBSan, exact-size heap stream buffers)", "tool": t, "base": name, "corruption": label},
+                              {"engine": "E6 tools (ASan+UBSan, exact-size heap stream buffers)", "tool": t, "args": targs, "base": name, "corruption": label},
                               {"kind": "tool-not-total", "tool": t, "op": k, "site": site})
         if nskip:
             ctx.cap("%d of %d cases not run: deadline reached (hanging tools consume the budget)" % (nskip, len(jobs)))
@@ -256,7 +259,7 @@ def run_c19(prop, tier):
         ctx.cov["rule"] = ("every single corruption of C12's operator set plus: all 256 (quick: 12) flag bytes of every event, clock bytes, 13 abusive jumbo size fields, "
                            "jumbo data cut/unterminated, events stripped of their payload, phantom payload at the end, 8 loom_cpus shapes and 15 abusive metadata "
                            "values, non-object / deeply nested JSON, missing/empty stream.obs; plus every stream of %d atoms from %d valid and malformed event "
-                           "encodings after a valid prefix; each case through ovniemu -l (and -l -d where an event's content changes), ovnidump, ovnitop and ovnisort built with ASan+UBSan and exact-size "
+                           "encodings after a valid prefix; each case through ovniemu -l (and -l -d where an event's content changes; -a -b), ovnidump (also -x), ovnitop and ovnisort (also -c and -n 4) built with ASan+UBSan and exact-size "
                            "heap stream buffers; the claim is about this space, not about all byte strings" % (depth, len(atoms)))
         ctx.sample({"base": "nosv", "corruption": "jsize:loom.n0/proc.100/thread.101:1:4294967280", "tools": tnames})
         ctx.sample({"corruption": "grammar:" + "+".join(a[0] for a in atoms[:2])})
